@@ -114,6 +114,12 @@ func StatusVars(t *rapid.T, all bool) []refenc.StatusVar {
 
 type clock struct{ now uint32 }
 
+// Clock is the exported face of the timestamp source used by RowsEvent.
+type Clock = clock
+
+// NewClock starts a clock.
+func NewClock() *Clock { return &clock{now: 1000} }
+
 func (c *clock) tick(t *rapid.T) uint32 {
 	c.now += uint32(rapid.IntRange(0, 3).Draw(t, "tick"))
 	return c.now
